@@ -607,7 +607,8 @@ example : prepare exEnv exCfg exText = some (92, exText, false) ∧ blen Gen.emp
     exChunks.flatten = munge exText ∧ (∀ c ∈ exChunks, c ≠ []) ∧
     suffixReserve (blen exText) + (parse exText).maxSize + 4 ≤ 92 ∧
     coherent exChunks exText (92 - suffixReserve (blen exText)) = true ∧ Plain exText ∧
-    suffixReserve (blen exText) = 23 := by decide +kernel
+    suffixReserve (blen exText) = 23 ∧ NoColour exText ∧
+    cleanWrap exChunks exText (92 - suffixReserve (blen exText)) = true := by decide +kernel
 
 example : ∃ lines, ircWrap exChunks exText (92 - suffixReserve (blen exText)) = .ok lines := by
   obtain ⟨l, h, _⟩ := ircWrap_plain exChunks exText (by decide +kernel) (by decide +kernel) (92 - suffixReserve (blen exText)) (by decide +kernel)
